@@ -298,6 +298,7 @@ class Engine:
         self.obligations = []
         self.path_count = 0
         self.hooks = []            # discipline hook objects
+        self.contracts_applied = set()
         self.lazy_init = {}
         self.covered = set()
         self.notes = []
@@ -377,7 +378,10 @@ class Engine:
             self.init_symbolic_object(o, base)
             return o
         if k == "opaque":
-            return VOpaque(ty[1] if len(ty) > 1 else base)
+            v = VOpaque(ty[1] if len(ty) > 1 else base)
+            if v.tag.startswith("non"):
+                v.types = frozenset()       # e.g. Opaque("nonstr"): a value that is an instance of none of the types tested
+            return v
         if k == "list":
             ln = self.fresh_int(base + "_len")
             self.assume(ln.t >= 0)
@@ -567,7 +571,12 @@ class Engine:
         raise OutOfSubset("truth of %r" % (v,))
 
     def force(self, v):
-        """resolve VOpt by branching"""
+        """resolve VOpt by branching (in contract expressions: no branching -- the value is used as if present;
+        contract authors guard such uses with `x is not None`)"""
+        if getattr(self, "spec_depth", 0) > 0:
+            while isinstance(v, VOpt):
+                v = v.val
+            return v
         while isinstance(v, VOpt):
             if self.branch(v.none):
                 return NONE
@@ -801,8 +810,8 @@ class Engine:
             r = VStr(z3.IntToStr(v.t), False)
             # IntToStr is "" for negatives; use an uninterpreted image then
             if not is_true(v.t >= 0):
-                f = z3.Function("py_str_int", z3.IntSort(), z3.StringSort())
-                r = VStr(z3.If(v.t >= 0, z3.IntToStr(v.t), f(v.t)), False)
+                r = VStr(z3.If(v.t >= 0, z3.IntToStr(v.t), z3.Concat(z3.StringVal("-"), z3.IntToStr(-v.t))), False)
+            r.l1 = True
             return r
         return self.fresh_str(base, False)
 
@@ -833,7 +842,8 @@ class Engine:
             if m is not None:
                 c, fn = m
                 if any(isinstance(d, ast.Name) and d.id == "property" for d in fn.decorator_list):
-                    return self.call_function_node(c.split(".")[0], c + "." + attr, fn, [base], {}, node, fr)
+                    from .builtins_model import call_value
+                    return call_value(self, VFunc("method", recv=base, cls=c, node=fn, name=c + "." + attr, attr=attr), [], {}, node, fr)
                 return VFunc("method", recv=base, cls=c, node=fn, name=c + "." + attr, attr=attr)
             d = self.class_attr_default(base.cls, attr)
             if d is not None:
@@ -1003,7 +1013,10 @@ class Engine:
         if isinstance(l, VStr) and isinstance(r, VStr) and isinstance(op, ast.Add):
             if l.bytes != r.bytes:
                 raise RaiseSig(VExc("TypeError"))
-            return VStr(z3.Concat(l.t, r.t), l.bytes)
+            out = VStr(z3.Concat(l.t, r.t), l.bytes)
+            if getattr(l, "l1", False) and getattr(r, "l1", False):
+                out.l1 = True
+            return out
         if isinstance(l, VStr) and isinstance(op, ast.Mod):
             return self.format_percent(l, r, node)
         if isinstance(l, VInt) and isinstance(r, VStr) and isinstance(op, ast.Mult):
@@ -1022,8 +1035,39 @@ class Engine:
         raise OutOfSubset("binop %s on %r, %r" % (type(op).__name__, l, r), node)
 
     def list_concat(self, a, b):
-        ln = (z3.IntVal(len(a.items)) if a.items is not None else a.length) + (z3.IntVal(len(b.items)) if b.items is not None else b.length)
-        m = ListModel(None, ln, a.make_elem or b.make_elem, [], "concat")
+        la = z3.IntVal(len(a.items)) if a.items is not None else a.length
+        lb = z3.IntVal(len(b.items)) if b.items is not None else b.length
+        av, bv = self.new_list(a.copy()), self.new_list(b.copy())
+        eng = self
+
+        def elem_of(model, lv, j):
+            # element j of `model` without forking when its elements are strings (nested If over a concrete spine)
+            if model.items is not None:
+                items = [eng.force(x) for x in model.items]
+                if items and all(isinstance(x, VStr) and x.bytes == items[0].bytes for x in items):
+                    t = items[-1].t
+                    for k in range(len(items) - 2, -1, -1):
+                        t = z3.If(j == k, items[k].t, t)
+                    return VStr(t, items[0].bytes)
+                return None
+            return eng.list_elem(lv, model, j)
+
+        def mk(i, _la=la):
+            # element i of a ++ b: from a when i < len(a), else from b
+            am, bm = eng.state.lists[av.lid], eng.state.lists[bv.lid]
+            if not (am.items is not None and not am.items) and not (bm.items is not None and not bm.items):
+                ea = elem_of(am, av, simp(z3.If(i < _la, i, 0)))
+                eb = elem_of(bm, bv, simp(z3.If(i < _la, 0, i - _la)))
+                ea, eb = (eng.force(ea) if ea is not None else None), (eng.force(eb) if eb is not None else None)
+                if isinstance(ea, VStr) and isinstance(eb, VStr) and ea.bytes == eb.bytes:
+                    r = VStr(z3.If(i < _la, ea.t, eb.t), ea.bytes)
+                    if getattr(ea, "l1", False) and getattr(eb, "l1", False):
+                        r.l1 = True
+                    return r
+            if eng.branch(i < _la):
+                return eng.index(av, VInt(i))
+            return eng.index(bv, VInt(simp(i - _la)))
+        m = ListModel(None, simp(la + lb), mk, [], "concat")
         return self.new_list(m)
 
     def const_eq(self, a, b):
@@ -1309,7 +1353,10 @@ class Engine:
             a = self.norm_index(lo.t, ln) if lo is not None else z3.IntVal(0)
             b = self.norm_index(hi.t, ln) if hi is not None else ln
             n = z3.If(b - a < 0, 0, b - a)
-            return VStr(simp(z3.SubString(base.t, a, n)), base.bytes)
+            r = VStr(simp(z3.SubString(base.t, a, n)), base.bytes)
+            if getattr(base, "l1", False):
+                r.l1 = True
+            return r
         if isinstance(base, VList):
             m = self.state.lists[base.lid]
             if m.items is not None:
@@ -1520,7 +1567,11 @@ class Engine:
         fr.is_spec = True
         if extra:
             fr.env.update(extra)
-        return self.eval(node, fr)
+        self.spec_depth = getattr(self, "spec_depth", 0) + 1
+        try:
+            return self.eval(node, fr)
+        finally:
+            self.spec_depth -= 1
 
     # ------------------------------------------------------------------ statements
     def exec_block(self, stmts, fr):
